@@ -76,9 +76,9 @@ CONFIGS_MORE = [c for c in _all_configs() if c not in CONFIGS_QUICK]
 
 
 def creq(op, sf, sw, sh, srep, sfilt, t, mf, mw, mh, mrep, mca, df, dw, dh, sx, sy, mx, my, dx, dy, w, h, seed,
-         sopaque=0, shared=0):
+         sopaque=0, shared=0, acc=0):
     f = [op, sf, sw, sh, srep, sfilt] + list(t) + [mf, mw, mh, mrep, mca, df, dw, dh, sx, sy, mx, my, dx, dy, w, h,
-                                                    seed, sopaque, shared]
+                                                    seed, sopaque, shared, acc]
     return "C %d %s" % (len(f), " ".join(str(int(x)) for x in f))
 
 
@@ -117,7 +117,7 @@ def gen_requests(rng, n, threads=False):
         # fast path cache sees hits at every depth, move-to-front and eviction
         if recent and rng.random() < 0.45:
             parts = rng.choice(recent[-rng.choice([1, 2, 4, 8, 9, 12]):]).split()
-            parts[-3] = str(seed)
+            parts[-4] = str(seed)
             reqs.append(" ".join(parts))
             continue
         if cls in ("fill", "blt") and threads and rng.random() < 0.5:
@@ -197,8 +197,12 @@ def gen_requests(rng, n, threads=False):
                         op, mf = 1, 0
                 if threads and rng.random() < 0.4:
                     shared = rng.randint(1, 3)
+            # read/write accessors on thread-private images (destination / mask / private source)
+            acc = rng.choice([0, 0, 0, 1, 2, 3, 4, 5]) if (threads or rng.random() < 0.15) else 0
+            if shared:
+                acc &= 3
             reqs.append(creq(op, sf, sw, sh, srep, sfilt, t, mf, mw, mh, mrep, mca, df, dw, dh, sx, sy, mx, my,
-                             dx, dy, w, h, seed, sopaque, shared))
+                             dx, dy, w, h, seed, sopaque, shared, acc))
             recent.append(reqs[-1])
     return reqs
 
@@ -469,6 +473,7 @@ def run_c16(args):
             with open(merged, "w") as f:
                 f.write(open(tr).read())
                 for k in range(1, nt + 1):
+                    vf.clean_tail("%s.t%d" % (tr, k))
                     f.write(open("%s.t%d" % (tr, k)).read())
             runs.append(("threads%d_%d" % (nt, rep), merged))
             lfiles.append(lookup_file(merged, merged + ".lookup"))
@@ -488,6 +493,7 @@ def run_c16(args):
         f.write(open(ttr).read())
         for k in range(1, 5):
             if os.path.exists("%s.t%d" % (ttr, k)):
+                vf.clean_tail("%s.t%d" % (ttr, k))
                 f.write(open("%s.t%d" % (ttr, k)).read())
     chk.extra["tsan_exit"] = p.returncode
     if p.returncode != 0 and '"e":"Crash"' not in open(ttr).read():
@@ -505,6 +511,7 @@ def run_c16(args):
         with open(negm, "w") as f:
             f.write(open(neg).read())
             for k in range(1, 5):
+                vf.clean_tail("%s.t%d" % (neg, k))
                 f.write(open("%s.t%d" % (neg, k)).read())
         ok, matched, total, r = vf.tlc_trace("DispatchTrace", lookup_file(negm, negm + ".lookup"), cfg=cfg, timeout=900)
         chk.add_tlc(r, "negative scenario (lazy first use in workers; must be rejected)")
